@@ -21,6 +21,8 @@ thread_local! {
     /// true while the executor is polling futures of the library / calling its functions and
     /// no simulated trait method is running. Used to attribute panics.
     pub static IN_SUT: Cell<bool> = const { Cell::new(false) };
+    /// set on threads that execute simulated runs (their panics are caught and attributed)
+    pub static IS_RUN_THREAD: Cell<bool> = const { Cell::new(false) };
 }
 
 /// Guard for the body of a simulated trait method: clears IN_SUT, restores on drop.
